@@ -349,14 +349,31 @@ func (f *Facts) Eval(e *ir.Expr) Res {
 		out := make([]any, 0, len(e.Items))
 		st := OK
 		why := ""
+		open := false
 		for _, it := range e.Items {
 			r := f.Eval(it)
 			st = worst(st, r.St)
 			why += r.Why
+			if it.K == "opt" && it.Tag != "ordisabled" {
+				// an optional item that is absent is left out of the list
+				if _, absent := r.V.(Absent); absent {
+					continue
+				}
+				if c, isC := r.V.(Choice); isC {
+					for _, a := range c.Alts {
+						if _, absent := a.(Absent); absent {
+							open = true // present or not: the length is not fixed
+						}
+					}
+				}
+			}
 			out = append(out, r.V)
 		}
 		if st != OK {
 			return Res{St: st, Why: why}
+		}
+		if open {
+			return Res{V: Wild{}}
 		}
 		return Res{V: out}
 	case "oneof":
